@@ -161,4 +161,40 @@ PROPS = {
                      'domain, 10 min for +HH:00 only); find_timezone\'s prefix search; the C API constructors.'),
         technique='contract-based deductive verification: Kani complete symbolic harness over the fixed-format offset strings',
     ),
+    'C15': dict(
+        title='Every database unit is found by each of its names and survives both codecs',
+        verus=[('u_units', [r'^lemma_units_table_chunk_', r'^lemma_unit_ids_bound_chunk_', r'^lemma_table_keys_are_ids_chunk_']),
+               ('u_zparse', [r'^parse_unit$', r'^is_unit_char$', r'^parse_number$'])],
+        kani=[dict(harness='k_unit_char_class', klass='complete', schema=['u8'], family=None, target='zinc number::is_unit_char'),
+              dict(harness='k_scanner_classes', klass='complete', schema=['u8'], family=None, target='Scanner::is_*')],
+        witness=None,
+        design_ref='DESIGN.md section 4, C15',
+        level_text=('Proof over the unit table extracted mechanically from units_generated.rs on every run (Verus by(compute)): the '
+                    'identifiers bound in the UNITS map are pairwise distinct (strictly increasing when sorted), every identifier of every '
+                    'Unit literal is a key bound to that very literal, every key is one of the identifiers of the unit it is bound to, and '
+                    'every identifier consists of unit bytes only and cannot be mistaken for an exponent by the Zinc number lexer; the unit '
+                    'byte class itself is proved equal to the real is_unit_char over all 256 bytes (Kani, complete).'),
+        not_decided=('HashMap::get returns the value inserted for an equal key and None otherwise (assumed: this is the whole of the third '
+                     'sentence); lazy_static initialisation; the magnitudes (f64 text, C01); that parse_unit returns exactly the maximal run '
+                     'of unit bytes (only its panic-freedom and termination are proved); the Hayson side looks up the unit member verbatim.'),
+        technique='contract-based deductive verification: Verus by(compute) lemmas over the mechanically extracted table + Kani complete byte-class harness',
+    ),
+    'C16': dict(
+        title='Unit conversion and Number arithmetic are dimensionally sound',
+        verus=[('u_units', [r'^lemma_unit_dims_bounded_chunk_'])],
+        kani=[dict(harness='k_convert_guard', klass='complete', schema=None, family=None, target='Unit::convert_to', timeout=300),
+              dict(harness='k_dims_add_sub', klass='complete', schema=['i8'] * 14, family=None, target='UnitDimensions +/-'),
+              dict(harness='k_number_add_sub', klass='complete', schema=None, family=None, target='Number +/-', timeout=600)],
+        witness=None,
+        design_ref='DESIGN.md section 4, C16',
+        level_text=('Proof of the guards and the dimension bookkeeping: Unit::convert_to succeeds exactly when both units have the same '
+                    'dimensions or both are byte units (Kani, complete over all dimension vectors); UnitDimensions + and - are the '
+                    'component-wise sum/difference without overflow for exponents in [-63,63] (Kani), and every database unit has exponents '
+                    'in [-8,8] (Verus by(compute) over the extracted table); Number + and - keep the common unit, treat a unit-less operand '
+                    'as neutral and fail exactly for two different units (Kani, all moderate finite f64 x {none,m,s}).'),
+        not_decided=('"equals the physical conversion" and "converting back returns the original within rounding" (floating-point error '
+                     'analysis: the formula harness does not finish in CBMC and Verus cannot discharge float preconditions); Mul/Div results '
+                     '(match_units iterates the lazy_static HashMap with closures); approx_eq symmetry (float division, did not finish in 500 s).'),
+        technique='contract-based deductive verification: Kani complete symbolic harnesses + Verus by(compute) table lemma',
+    ),
 }
